@@ -42,7 +42,14 @@ cj = os.path.join(os.path.dirname(os.path.abspath(__file__)), "..", "fixes", "co
 if os.path.exists(cj):
     c = json.load(open(cj))
     d = json.load(open("known_findings.json"))
+    for e in c.get("extra_findings", []):
+        if not any(f["property"] == e["property"] and f["key"] == e["key"] for f in d["findings"]):
+            d["findings"].append(e)
     for f in d["findings"]:
+        for prop, sub, status, patch in c.get("overrides", []):
+            if f["property"] == prop and sub in f["key"] and f.get("status") != status:
+                f["status"] = status
+                f.setdefault("line", "fixed: property=%s COMMIT %s" % (prop, f.get("description", "")[:240]))
         if f.get("status") != "fixed":
             continue
         for prop, sub, patch in c["rules"]:
